@@ -133,6 +133,10 @@ def fit_extras(name, r, D, p=0.5):
     lo = r.choice([0.0, 0.0, 0.5, 1.0])
     ex["bounds"] = {"$arr": dict(kind="bounds", lo=lo, hi=lo + r.choice([1.0, 3.0, 10.0]),
                                  **{"as": r.choice(["ndarray", "ndarray", "list", "tuple", "column"])})}
+    if substream(D.desc.get("seed", 0), "generous-bounds-%d" % len(name)).random() < 0.25:
+      # bounds that the prior already satisfies for every pair (similar pairs closer than 1e12,
+      # dissimilar ones farther than 1e-12): no constraint is ever active
+      ex["bounds"]["$arr"].update(lo=1e12, hi=1e-12)
   if name == "LSML" and r.random() < p:
     ex["weights"] = {"$arr": dict(kind="weights", seed=r.randrange(100), m=len(D.quads_idx),
                                   scale=r.choice([1.0, 1.0, 100.0]),
@@ -422,6 +426,8 @@ def gen_history(seed, tier, classes=None, weights=None, n_ops=(6, 16),
         # half: learned distances that differ in the last place or two, with conflicting labels
         ops[-1]["near_ties"] = True
         ops[-1]["m"] = max(ops[-1]["m"], 8)
+      if ops[-1]["via"] == "formed" and substream(seed, "hist-f32cal-%d" % len(ops)).random() < 0.2:
+        ops[-1]["f32"] = True
       if calib_other_p and r.random() < calib_other_p and len(dkeys) > 1:
         # validation pairs from another dataset (possibly of another width: then the
         # call is rejected - and must leave the fitted model as it was)
